@@ -63,6 +63,14 @@ func (c *cell) op(addr uintptr, write bool) {
 	me.VC[me.ID]++
 }
 
+// post is the preemption point after the effect of a write: what a store publishes may be
+// acted upon before the storing task's next statement runs.
+func post() {
+	if s := sched.Cur; s != nil && !s.Aborted() {
+		s.Yield(sched.KAtomic, 0)
+	}
+}
+
 // cells for the function forms, keyed by address (looked up, never iterated)
 var cells = map[uintptr]*cell{}
 
@@ -89,11 +97,12 @@ type Int32 struct {
 }
 
 func (x *Int32) Load() int32        { x.c.op(0, false); return x.v }
-func (x *Int32) Store(v int32)      { x.c.op(0, true); x.v = v }
-func (x *Int32) Swap(v int32) int32 { x.c.op(0, true); o := x.v; x.v = v; return o }
-func (x *Int32) Add(d int32) int32  { x.c.op(0, true); x.v += d; return x.v }
+func (x *Int32) Store(v int32)      { x.c.op(0, true); defer post(); x.v = v }
+func (x *Int32) Swap(v int32) int32 { x.c.op(0, true); defer post(); o := x.v; x.v = v; return o }
+func (x *Int32) Add(d int32) int32  { x.c.op(0, true); defer post(); x.v += d; return x.v }
 func (x *Int32) CompareAndSwap(o, n int32) bool {
 	x.c.op(0, true)
+	defer post()
 	if x.v == o {
 		x.v = n
 		return true
@@ -108,11 +117,12 @@ type Int64 struct {
 }
 
 func (x *Int64) Load() int64        { x.c.op(0, false); return x.v }
-func (x *Int64) Store(v int64)      { x.c.op(0, true); x.v = v }
-func (x *Int64) Swap(v int64) int64 { x.c.op(0, true); o := x.v; x.v = v; return o }
-func (x *Int64) Add(d int64) int64  { x.c.op(0, true); x.v += d; return x.v }
+func (x *Int64) Store(v int64)      { x.c.op(0, true); defer post(); x.v = v }
+func (x *Int64) Swap(v int64) int64 { x.c.op(0, true); defer post(); o := x.v; x.v = v; return o }
+func (x *Int64) Add(d int64) int64  { x.c.op(0, true); defer post(); x.v += d; return x.v }
 func (x *Int64) CompareAndSwap(o, n int64) bool {
 	x.c.op(0, true)
+	defer post()
 	if x.v == o {
 		x.v = n
 		return true
@@ -127,11 +137,12 @@ type Uint32 struct {
 }
 
 func (x *Uint32) Load() uint32         { x.c.op(0, false); return x.v }
-func (x *Uint32) Store(v uint32)       { x.c.op(0, true); x.v = v }
-func (x *Uint32) Swap(v uint32) uint32 { x.c.op(0, true); o := x.v; x.v = v; return o }
-func (x *Uint32) Add(d uint32) uint32  { x.c.op(0, true); x.v += d; return x.v }
+func (x *Uint32) Store(v uint32)       { x.c.op(0, true); defer post(); x.v = v }
+func (x *Uint32) Swap(v uint32) uint32 { x.c.op(0, true); defer post(); o := x.v; x.v = v; return o }
+func (x *Uint32) Add(d uint32) uint32  { x.c.op(0, true); defer post(); x.v += d; return x.v }
 func (x *Uint32) CompareAndSwap(o, n uint32) bool {
 	x.c.op(0, true)
+	defer post()
 	if x.v == o {
 		x.v = n
 		return true
@@ -146,11 +157,12 @@ type Uint64 struct {
 }
 
 func (x *Uint64) Load() uint64         { x.c.op(0, false); return x.v }
-func (x *Uint64) Store(v uint64)       { x.c.op(0, true); x.v = v }
-func (x *Uint64) Swap(v uint64) uint64 { x.c.op(0, true); o := x.v; x.v = v; return o }
-func (x *Uint64) Add(d uint64) uint64  { x.c.op(0, true); x.v += d; return x.v }
+func (x *Uint64) Store(v uint64)       { x.c.op(0, true); defer post(); x.v = v }
+func (x *Uint64) Swap(v uint64) uint64 { x.c.op(0, true); defer post(); o := x.v; x.v = v; return o }
+func (x *Uint64) Add(d uint64) uint64  { x.c.op(0, true); defer post(); x.v += d; return x.v }
 func (x *Uint64) CompareAndSwap(o, n uint64) bool {
 	x.c.op(0, true)
+	defer post()
 	if x.v == o {
 		x.v = n
 		return true
@@ -165,11 +177,12 @@ type Uintptr struct {
 }
 
 func (x *Uintptr) Load() uintptr          { x.c.op(0, false); return x.v }
-func (x *Uintptr) Store(v uintptr)        { x.c.op(0, true); x.v = v }
-func (x *Uintptr) Swap(v uintptr) uintptr { x.c.op(0, true); o := x.v; x.v = v; return o }
-func (x *Uintptr) Add(d uintptr) uintptr  { x.c.op(0, true); x.v += d; return x.v }
+func (x *Uintptr) Store(v uintptr)        { x.c.op(0, true); defer post(); x.v = v }
+func (x *Uintptr) Swap(v uintptr) uintptr { x.c.op(0, true); defer post(); o := x.v; x.v = v; return o }
+func (x *Uintptr) Add(d uintptr) uintptr  { x.c.op(0, true); defer post(); x.v += d; return x.v }
 func (x *Uintptr) CompareAndSwap(o, n uintptr) bool {
 	x.c.op(0, true)
+	defer post()
 	if x.v == o {
 		x.v = n
 		return true
@@ -184,10 +197,11 @@ type Bool struct {
 }
 
 func (x *Bool) Load() bool       { x.c.op(0, false); return x.v }
-func (x *Bool) Store(v bool)     { x.c.op(0, true); x.v = v }
-func (x *Bool) Swap(v bool) bool { x.c.op(0, true); o := x.v; x.v = v; return o }
+func (x *Bool) Store(v bool)     { x.c.op(0, true); defer post(); x.v = v }
+func (x *Bool) Swap(v bool) bool { x.c.op(0, true); defer post(); o := x.v; x.v = v; return o }
 func (x *Bool) CompareAndSwap(o, n bool) bool {
 	x.c.op(0, true)
+	defer post()
 	if x.v == o {
 		x.v = n
 		return true
@@ -202,10 +216,11 @@ type Pointer[T any] struct {
 }
 
 func (x *Pointer[T]) Load() *T     { x.c.op(0, false); return x.v }
-func (x *Pointer[T]) Store(v *T)   { x.c.op(0, true); x.v = v }
-func (x *Pointer[T]) Swap(v *T) *T { x.c.op(0, true); o := x.v; x.v = v; return o }
+func (x *Pointer[T]) Store(v *T)   { x.c.op(0, true); defer post(); x.v = v }
+func (x *Pointer[T]) Swap(v *T) *T { x.c.op(0, true); defer post(); o := x.v; x.v = v; return o }
 func (x *Pointer[T]) CompareAndSwap(o, n *T) bool {
 	x.c.op(0, true)
+	defer post()
 	if x.v == o {
 		x.v = n
 		return true
@@ -219,17 +234,25 @@ type Value struct {
 	v interface{}
 }
 
-func (x *Value) Load() interface{} { x.c.op(0, true); return x.v }
+func (x *Value) Load() interface{} { x.c.op(0, true); defer post(); return x.v }
 func (x *Value) Store(v interface{}) {
 	if v == nil {
 		panic("sync/atomic: store of nil value into Value")
 	}
 	x.c.op(0, true)
+	defer post()
 	x.v = v
 }
-func (x *Value) Swap(v interface{}) interface{} { x.c.op(0, true); o := x.v; x.v = v; return o }
+func (x *Value) Swap(v interface{}) interface{} {
+	x.c.op(0, true)
+	defer post()
+	o := x.v
+	x.v = v
+	return o
+}
 func (x *Value) CompareAndSwap(o, n interface{}) bool {
 	x.c.op(0, true)
+	defer post()
 	if x.v == o {
 		x.v = n
 		return true
@@ -248,33 +271,71 @@ func LoadPointer(p *unsafe.Pointer) unsafe.Pointer {
 	atr(unsafe.Pointer(p))
 	return *p
 }
-func StoreInt32(p *int32, v int32)       { at(unsafe.Pointer(p)); *p = v }
-func StoreInt64(p *int64, v int64)       { at(unsafe.Pointer(p)); *p = v }
-func StoreUint32(p *uint32, v uint32)    { at(unsafe.Pointer(p)); *p = v }
-func StoreUint64(p *uint64, v uint64)    { at(unsafe.Pointer(p)); *p = v }
-func StoreUintptr(p *uintptr, v uintptr) { at(unsafe.Pointer(p)); *p = v }
+func StoreInt32(p *int32, v int32)       { at(unsafe.Pointer(p)); defer post(); *p = v }
+func StoreInt64(p *int64, v int64)       { at(unsafe.Pointer(p)); defer post(); *p = v }
+func StoreUint32(p *uint32, v uint32)    { at(unsafe.Pointer(p)); defer post(); *p = v }
+func StoreUint64(p *uint64, v uint64)    { at(unsafe.Pointer(p)); defer post(); *p = v }
+func StoreUintptr(p *uintptr, v uintptr) { at(unsafe.Pointer(p)); defer post(); *p = v }
 func StorePointer(p *unsafe.Pointer, v unsafe.Pointer) {
 	at(unsafe.Pointer(p))
+	defer post()
 	*p = v
 }
-func AddInt32(p *int32, d int32) int32          { at(unsafe.Pointer(p)); *p += d; return *p }
-func AddInt64(p *int64, d int64) int64          { at(unsafe.Pointer(p)); *p += d; return *p }
-func AddUint32(p *uint32, d uint32) uint32      { at(unsafe.Pointer(p)); *p += d; return *p }
-func AddUint64(p *uint64, d uint64) uint64      { at(unsafe.Pointer(p)); *p += d; return *p }
-func AddUintptr(p *uintptr, d uintptr) uintptr  { at(unsafe.Pointer(p)); *p += d; return *p }
-func SwapInt32(p *int32, v int32) int32         { at(unsafe.Pointer(p)); o := *p; *p = v; return o }
-func SwapInt64(p *int64, v int64) int64         { at(unsafe.Pointer(p)); o := *p; *p = v; return o }
-func SwapUint32(p *uint32, v uint32) uint32     { at(unsafe.Pointer(p)); o := *p; *p = v; return o }
-func SwapUint64(p *uint64, v uint64) uint64     { at(unsafe.Pointer(p)); o := *p; *p = v; return o }
-func SwapUintptr(p *uintptr, v uintptr) uintptr { at(unsafe.Pointer(p)); o := *p; *p = v; return o }
+func AddInt32(p *int32, d int32) int32     { at(unsafe.Pointer(p)); defer post(); *p += d; return *p }
+func AddInt64(p *int64, d int64) int64     { at(unsafe.Pointer(p)); defer post(); *p += d; return *p }
+func AddUint32(p *uint32, d uint32) uint32 { at(unsafe.Pointer(p)); defer post(); *p += d; return *p }
+func AddUint64(p *uint64, d uint64) uint64 { at(unsafe.Pointer(p)); defer post(); *p += d; return *p }
+func AddUintptr(p *uintptr, d uintptr) uintptr {
+	at(unsafe.Pointer(p))
+	defer post()
+	*p += d
+	return *p
+}
+func SwapInt32(p *int32, v int32) int32 {
+	at(unsafe.Pointer(p))
+	defer post()
+	o := *p
+	*p = v
+	return o
+}
+func SwapInt64(p *int64, v int64) int64 {
+	at(unsafe.Pointer(p))
+	defer post()
+	o := *p
+	*p = v
+	return o
+}
+func SwapUint32(p *uint32, v uint32) uint32 {
+	at(unsafe.Pointer(p))
+	defer post()
+	o := *p
+	*p = v
+	return o
+}
+func SwapUint64(p *uint64, v uint64) uint64 {
+	at(unsafe.Pointer(p))
+	defer post()
+	o := *p
+	*p = v
+	return o
+}
+func SwapUintptr(p *uintptr, v uintptr) uintptr {
+	at(unsafe.Pointer(p))
+	defer post()
+	o := *p
+	*p = v
+	return o
+}
 func SwapPointer(p *unsafe.Pointer, v unsafe.Pointer) unsafe.Pointer {
 	at(unsafe.Pointer(p))
+	defer post()
 	o := *p
 	*p = v
 	return o
 }
 func CompareAndSwapInt32(p *int32, o, n int32) bool {
 	at(unsafe.Pointer(p))
+	defer post()
 	if *p == o {
 		*p = n
 		return true
@@ -283,6 +344,7 @@ func CompareAndSwapInt32(p *int32, o, n int32) bool {
 }
 func CompareAndSwapInt64(p *int64, o, n int64) bool {
 	at(unsafe.Pointer(p))
+	defer post()
 	if *p == o {
 		*p = n
 		return true
@@ -291,6 +353,7 @@ func CompareAndSwapInt64(p *int64, o, n int64) bool {
 }
 func CompareAndSwapUint32(p *uint32, o, n uint32) bool {
 	at(unsafe.Pointer(p))
+	defer post()
 	if *p == o {
 		*p = n
 		return true
@@ -299,6 +362,7 @@ func CompareAndSwapUint32(p *uint32, o, n uint32) bool {
 }
 func CompareAndSwapUint64(p *uint64, o, n uint64) bool {
 	at(unsafe.Pointer(p))
+	defer post()
 	if *p == o {
 		*p = n
 		return true
@@ -307,6 +371,7 @@ func CompareAndSwapUint64(p *uint64, o, n uint64) bool {
 }
 func CompareAndSwapUintptr(p *uintptr, o, n uintptr) bool {
 	at(unsafe.Pointer(p))
+	defer post()
 	if *p == o {
 		*p = n
 		return true
@@ -315,6 +380,7 @@ func CompareAndSwapUintptr(p *uintptr, o, n uintptr) bool {
 }
 func CompareAndSwapPointer(p *unsafe.Pointer, o, n unsafe.Pointer) bool {
 	at(unsafe.Pointer(p))
+	defer post()
 	if *p == o {
 		*p = n
 		return true
@@ -323,24 +389,84 @@ func CompareAndSwapPointer(p *unsafe.Pointer, o, n unsafe.Pointer) bool {
 }
 
 // And / Or (Go 1.23): return the old value.
-func AndInt32(p *int32, m int32) int32         { at(unsafe.Pointer(p)); o := *p; *p &= m; return o }
-func AndInt64(p *int64, m int64) int64         { at(unsafe.Pointer(p)); o := *p; *p &= m; return o }
-func AndUint32(p *uint32, m uint32) uint32     { at(unsafe.Pointer(p)); o := *p; *p &= m; return o }
-func AndUint64(p *uint64, m uint64) uint64     { at(unsafe.Pointer(p)); o := *p; *p &= m; return o }
-func AndUintptr(p *uintptr, m uintptr) uintptr { at(unsafe.Pointer(p)); o := *p; *p &= m; return o }
-func OrInt32(p *int32, m int32) int32          { at(unsafe.Pointer(p)); o := *p; *p |= m; return o }
-func OrInt64(p *int64, m int64) int64          { at(unsafe.Pointer(p)); o := *p; *p |= m; return o }
-func OrUint32(p *uint32, m uint32) uint32      { at(unsafe.Pointer(p)); o := *p; *p |= m; return o }
-func OrUint64(p *uint64, m uint64) uint64      { at(unsafe.Pointer(p)); o := *p; *p |= m; return o }
-func OrUintptr(p *uintptr, m uintptr) uintptr  { at(unsafe.Pointer(p)); o := *p; *p |= m; return o }
+func AndInt32(p *int32, m int32) int32 {
+	at(unsafe.Pointer(p))
+	defer post()
+	o := *p
+	*p &= m
+	return o
+}
+func AndInt64(p *int64, m int64) int64 {
+	at(unsafe.Pointer(p))
+	defer post()
+	o := *p
+	*p &= m
+	return o
+}
+func AndUint32(p *uint32, m uint32) uint32 {
+	at(unsafe.Pointer(p))
+	defer post()
+	o := *p
+	*p &= m
+	return o
+}
+func AndUint64(p *uint64, m uint64) uint64 {
+	at(unsafe.Pointer(p))
+	defer post()
+	o := *p
+	*p &= m
+	return o
+}
+func AndUintptr(p *uintptr, m uintptr) uintptr {
+	at(unsafe.Pointer(p))
+	defer post()
+	o := *p
+	*p &= m
+	return o
+}
+func OrInt32(p *int32, m int32) int32 {
+	at(unsafe.Pointer(p))
+	defer post()
+	o := *p
+	*p |= m
+	return o
+}
+func OrInt64(p *int64, m int64) int64 {
+	at(unsafe.Pointer(p))
+	defer post()
+	o := *p
+	*p |= m
+	return o
+}
+func OrUint32(p *uint32, m uint32) uint32 {
+	at(unsafe.Pointer(p))
+	defer post()
+	o := *p
+	*p |= m
+	return o
+}
+func OrUint64(p *uint64, m uint64) uint64 {
+	at(unsafe.Pointer(p))
+	defer post()
+	o := *p
+	*p |= m
+	return o
+}
+func OrUintptr(p *uintptr, m uintptr) uintptr {
+	at(unsafe.Pointer(p))
+	defer post()
+	o := *p
+	*p |= m
+	return o
+}
 
-func (x *Int32) And(m int32) int32       { x.c.op(0, true); o := x.v; x.v &= m; return o }
-func (x *Int32) Or(m int32) int32        { x.c.op(0, true); o := x.v; x.v |= m; return o }
-func (x *Int64) And(m int64) int64       { x.c.op(0, true); o := x.v; x.v &= m; return o }
-func (x *Int64) Or(m int64) int64        { x.c.op(0, true); o := x.v; x.v |= m; return o }
-func (x *Uint32) And(m uint32) uint32    { x.c.op(0, true); o := x.v; x.v &= m; return o }
-func (x *Uint32) Or(m uint32) uint32     { x.c.op(0, true); o := x.v; x.v |= m; return o }
-func (x *Uint64) And(m uint64) uint64    { x.c.op(0, true); o := x.v; x.v &= m; return o }
-func (x *Uint64) Or(m uint64) uint64     { x.c.op(0, true); o := x.v; x.v |= m; return o }
-func (x *Uintptr) And(m uintptr) uintptr { x.c.op(0, true); o := x.v; x.v &= m; return o }
-func (x *Uintptr) Or(m uintptr) uintptr  { x.c.op(0, true); o := x.v; x.v |= m; return o }
+func (x *Int32) And(m int32) int32       { x.c.op(0, true); defer post(); o := x.v; x.v &= m; return o }
+func (x *Int32) Or(m int32) int32        { x.c.op(0, true); defer post(); o := x.v; x.v |= m; return o }
+func (x *Int64) And(m int64) int64       { x.c.op(0, true); defer post(); o := x.v; x.v &= m; return o }
+func (x *Int64) Or(m int64) int64        { x.c.op(0, true); defer post(); o := x.v; x.v |= m; return o }
+func (x *Uint32) And(m uint32) uint32    { x.c.op(0, true); defer post(); o := x.v; x.v &= m; return o }
+func (x *Uint32) Or(m uint32) uint32     { x.c.op(0, true); defer post(); o := x.v; x.v |= m; return o }
+func (x *Uint64) And(m uint64) uint64    { x.c.op(0, true); defer post(); o := x.v; x.v &= m; return o }
+func (x *Uint64) Or(m uint64) uint64     { x.c.op(0, true); defer post(); o := x.v; x.v |= m; return o }
+func (x *Uintptr) And(m uintptr) uintptr { x.c.op(0, true); defer post(); o := x.v; x.v &= m; return o }
+func (x *Uintptr) Or(m uintptr) uintptr  { x.c.op(0, true); defer post(); o := x.v; x.v |= m; return o }
